@@ -22,11 +22,18 @@ C15_NotIgnored(c)  == \A i \in 1..Len(c.out.sps) : ~InSeq(c.out.sps[i], c.ignore
 C15_Eligible(c)    == \A i \in 1..Len(c.out.sps) : EligibleIn(c, c.out.sps[i])
 C15_AtMostCount(c) == Len(c.out.sps) <= Max2(c.count, 0) \/ (c.count <= 0 /\ Len(c.out.sps) <= Cardinality({a \in Rng([i \in 1..Len(c.nodes) |-> c.nodes[i].a]) : TRUE}))
 
-Names == <<"C02_SelectionTerminates", "C15_Distinct", "C15_NotIgnored", "C15_Eligible", "C15_AtMostCount", "Conf_RandomSP", "Conf_RandomIndex">>
+RECURSIVE FloorLog2(_)
+FloorLog2(q) == IF q <= 1 THEN 0 ELSE 1 + FloorLog2(q \div 2)
+\* x/node/abci.go GetRewardAge with num/den of the total emission minted: floor(log2(floor(total / remaining)));
+\* once everything is minted no subsidy may survive the shift (and the call must still return: it runs in BeginBlock)
+AgeOk(c) == IF c.count >= c.total THEN c.out.age >= 64 ELSE c.out.age = FloorLog2(c.total \div (c.total - c.count))
+
+Names == <<"C02_RewardAgeTotal", "C02_SelectionTerminates", "C15_Distinct", "C15_NotIgnored", "C15_Eligible", "C15_AtMostCount", "Conf_RandomSP", "Conf_RandomIndex">>
 
 Check(c, i) ==
     LET fails ==
-        IF c.out.result # "ok" THEN {"C02_SelectionTerminates"}
+        IF c.kind = "age" THEN (IF c.out.result # "ok" \/ ~AgeOk(c) THEN {"C02_RewardAgeTotal"} ELSE {})
+        ELSE IF c.out.result # "ok" THEN {"C02_SelectionTerminates"}
         ELSE IF c.kind = "ri" THEN
             (IF RandomIndex(c.seed, c.total, c.count) # c.out.idx THEN {"Conf_RandomIndex"} ELSE {})
             \cup (IF ~NoDup(c.out.idx) \/ \E k \in 1..Len(c.out.idx) : c.out.idx[k] < 0 \/ c.out.idx[k] >= c.total THEN {"C15_Distinct"} ELSE {})
